@@ -82,7 +82,7 @@ Definition site_mem (s : site) (l : list site) : bool := existsb (site_eqb s) l.
 
 Definition is_net_kind (k : skind) : bool := match k with KNetImport | KNet => true | _ => false end.
 Definition is_write_kind (k : skind) : bool :=
-  match k with KFsImport | KFsWrite | KWrapperCall | KPathFn => true | _ => false end.
+  match k with KFsImport | KFsWrite | KWrapperCall | KPathFn | KLocal => true | _ => false end.
 Definition is_proc_kind (k : skind) : bool := match k with KProcImport | KProcess => true | _ => false end.
 
 (* harper-ls/src/main.rs: the import, the bind on DEFAULT_ADDRESS, the accept on that very listener *)
@@ -92,8 +92,13 @@ Definition allowed_net_sites : list site := [
   mksite "harper-ls/src/main.rs" "main" KNet "listener.accept" "" "TcpListener::bind(DEFAULT_ADDRESS).await.unwrap()" ""
 ].
 
-(* save_dict(path): mkdir -p parent(path); create path.   save_stats: mkdir -p parent(stats_path); append to stats_path.
-   Callers of save_dict pass user_dict_path or file_dict_path.join(file_dict_name(url)); save_stats is called by shutdown. *)
+(* save_dict(path), since 87b8642:  path := path.as_ref(); mkdir -p parent(path);
+     tmp_name := file_name(path) (as OsString); tmp_name.push(".tmp"); tmp_path := path.with_file_name(tmp_name)
+     — i.e. the sibling `<path>.tmp` in the SAME directory —; create tmp_path; write; fsync; rename(tmp_path, path).
+   save_stats: mkdir -p parent(stats_path); append to stats_path (no temporary file).
+   Callers of save_dict pass user_dict_path or file_dict_path.join(file_dict_name(url)); save_stats is called by shutdown.
+   The KLocal rows pin how every local that these path expressions mention is computed (a change of the temporary
+   name, of its directory, or a second destination breaks C10_write_sites until this list is looked at again). *)
 Definition allowed_write_sites : list site := [
   (* imports that bring a file type / the fs module into scope; what is DONE with them is in the KFsWrite rows
      (harper-cli only reads: File::open, fs::read_to_string) *)
@@ -104,13 +109,23 @@ Definition allowed_write_sites : list site := [
   mksite "harper-ls/src/backend.rs" "save_stats" KFsWrite
          "OpenOptions::new().read(true).append(true).create(true).open" "&config.stats_path" "" "";
   mksite "harper-ls/src/backend.rs" "save_stats" KFsWrite "fs::create_dir_all" "parent" "config.stats_path.parent()" "";
-  mksite "harper-ls/src/dictionary_io.rs" "save_dict" KFsWrite "File::create" "path.as_ref()" "" "";
-  mksite "harper-ls/src/dictionary_io.rs" "save_dict" KFsWrite "fs::create_dir_all" "parent" "path.as_ref().parent()" "";
+  mksite "harper-ls/src/backend.rs" "save_stats" KLocal "let (config,stats)" "join(self.config.read(),self.stats.read()).await" "" "";
+  mksite "harper-ls/src/backend.rs" "save_stats" KLocal "let Some(parent)" "config.stats_path.parent()" "" "";
+  mksite "harper-ls/src/dictionary_io.rs" "save_dict" KFsWrite "File::create" "&tmp_path" "path.with_file_name(tmp_name)" "";
+  mksite "harper-ls/src/dictionary_io.rs" "save_dict" KFsWrite "fs::create_dir_all" "parent" "path.parent()" "";
+  mksite "harper-ls/src/dictionary_io.rs" "save_dict" KFsWrite "fs::rename" "&tmp_path,path" "" "";
+  mksite "harper-ls/src/dictionary_io.rs" "save_dict" KLocal "let path" "path.as_ref()" "" "";
+  mksite "harper-ls/src/dictionary_io.rs" "save_dict" KLocal "let Some(parent)" "path.parent()" "" "";
+  mksite "harper-ls/src/dictionary_io.rs" "save_dict" KLocal "let tmp_name" "path.file_name().unwrap_or_default().to_os_string()" "" "";
+  mksite "harper-ls/src/dictionary_io.rs" "save_dict" KLocal "tmp_name.push" """.tmp""" "" "";
+  mksite "harper-ls/src/dictionary_io.rs" "save_dict" KLocal "let tmp_path" "path.with_file_name(tmp_name)" "" "";
   mksite "harper-ls/src/backend.rs" "save_file_dictionary" KWrapperCall "save_dict"
          "self.get_file_dict_path(url).await.context(""Unable to get the file path."")?" "" "";
   mksite "harper-ls/src/backend.rs" "get_file_dict_path" KPathFn "tail-expression"
          "Ok(config.file_dict_path.join(file_dict_name(url)?))" "" "";
+  mksite "harper-ls/src/backend.rs" "get_file_dict_path" KLocal "let config" "self.config.read().await" "" "";
   mksite "harper-ls/src/backend.rs" "save_user_dictionary" KWrapperCall "save_dict" "&config.user_dict_path" "" "";
+  mksite "harper-ls/src/backend.rs" "save_user_dictionary" KLocal "let config" "self.config.read().await" "" "";
   mksite "harper-ls/src/backend.rs" "shutdown" KWrapperCall "self.save_stats" "" "" ""
 ].
 
@@ -272,8 +287,22 @@ Fixpoint is_dir_prefix (p q : bytes) : bool :=
   | _, _ => false
   end.
 
+(* save_dict (since 87b8642) writes `<dictionary>.tmp`, the sibling in the same directory, and renames it over the
+   dictionary: the temporary name is the destination's name with ".tmp" appended, nothing else *)
+Definition tmp_suffix : bytes := [46; 116; 109; 112]%N.     (* ".tmp" *)
+Definition tmp_of (p : bytes) : bytes := p ++ tmp_suffix.
+
+(* a dictionary file: the configured user dictionary, or a file directly inside the file-dictionary directory *)
+Definition dict_file (c : mcfg) (p : bytes) : bool := beqb p (m_user c) || beqb (dir_of p) (m_filedir c).
+
+(* the files that may be created / opened for writing / removed: the user dictionary and its ".tmp" sibling, the
+   statistics file (save_stats appends in place: NO temporary sibling), any file directly inside the file-dictionary
+   directory (the ".tmp" sibling of a file dictionary is such a file).  Nothing else. *)
 Definition path_allowed (c : mcfg) (p : bytes) : bool :=
-  beqb p (m_user c) || beqb p (m_stats c) || beqb (dir_of p) (m_filedir c) || bmem p (m_own c).
+  beqb p (m_user c) || beqb p (tmp_of (m_user c)) || beqb p (m_stats c) || beqb (dir_of p) (m_filedir c) || bmem p (m_own c).
+
+(* the only rename: a dictionary's ".tmp" sibling over that dictionary *)
+Definition rename_allowed (c : mcfg) (src dst : bytes) : bool := dict_file c dst && beqb src (tmp_of dst).
 
 (* create_dir_all: the directories leading to a configured file, and the file-dictionary directory itself *)
 Definition mkdir_allowed (c : mcfg) (p : bytes) : bool :=
@@ -287,7 +316,7 @@ Definition judge (c : mcfg) (e : sysev) : verdict :=
   | EvBind f => if (f =? AF_UNIX)%N then VOk else VNet
   | EvOpen w p => if bmem p resolver_files then VResolve
                   else if w then (if path_allowed c p then VOk else VWrite) else VOk
-  | EvRename a b => if path_allowed c a && path_allowed c b then VOk else VWrite
+  | EvRename a b => if rename_allowed c a b then VOk else VWrite
   | EvUnlink p => if path_allowed c p then VOk else VWrite
   | EvMkdir p => if mkdir_allowed c p then VOk else VWrite
   end.
